@@ -24,7 +24,7 @@ ASSUMPTIONS = STRUCT_ASSUMPTIONS
 
 
 def budget(tier):
-    return dict(examples=5000 if tier == 'quick' else 300000)
+    return dict(examples=5000 if tier == 'quick' else 250000)
 
 
 @st.composite
